@@ -37,6 +37,8 @@ fn main() {
             match job.as_str() {
                 "c01" | "c12" | "c15" => props::stream::replay(job, &src, outdir),
                 "c14" | "c16" => props::tok::replay(job, &src, outdir),
+                "c02" | "c06" => props::rel::replay(job, &src, outdir),
+                "c09" => props::lat::replay(job, &src, outdir),
                 _ => { eprintln!("unknown job {job}"); std::process::exit(2); }
             }
         }
@@ -50,6 +52,9 @@ fn main() {
                 "c01" => props::stream::job_c01(outdir, tier, seed),
                 "c12" => props::stream::job_c12(outdir, tier, seed),
                 "c15" => props::stream::job_c15(outdir, tier, seed),
+                "c02" => props::rel::job_c02(outdir, tier, seed),
+                "c06" => props::rel::job_c06(outdir, tier, seed),
+                "c09" => props::lat::job_c09(outdir, tier, seed),
                 "c14" => props::tok::job_c14(outdir, tier, seed),
                 "c16" => props::tok::job_c16(outdir, tier, seed),
                 _ => { eprintln!("unknown job {job}"); std::process::exit(2); }
